@@ -296,9 +296,10 @@ func cacheCorpus(c *Ctx) {
 }
 
 func cacheBFS(c *Ctx) {
-	rvs := []string{"0", "1", "2", "3", "x", ""}
+	// "010" is ten (not eight), "08" is eight (not a syntax error): versions are decimal
+	rvs := []string{"0", "1", "9", "010", "x", ""} // 9 < 010 in decimal (in octal 010 would be 8)
 	if !c.Quick() {
-		rvs = append(rvs, "-1", "+3", "007", "9223372036854775808")
+		rvs = append(rvs, "2", "08", "-1", "+3", "007", "9223372036854775808")
 	}
 	fam := cacheFamily()
 	objs := cacheObjects(rvs)
